@@ -143,8 +143,12 @@ def drive(case, rng, profile, test_ids=True, mutate=False, max_calls=80, script=
     if not do(("start",)):
         return out
     n = 0
+    again = zlib.crc32(text.encode()) % 4      # 1: start() again in the middle; 1, 3: again after the end
     while pending and n < max_calls and out["exc"] is None:
         n += 1
+        if n == 3 and again == 1:
+            if not do(("start",)):              # a started order is not started again
+                break
         admin()
         if junk_p and rng.random() < junk_p:
             c = rng.random()
@@ -168,6 +172,8 @@ def drive(case, rng, profile, test_ids=True, mutate=False, max_calls=80, script=
             do(("finish", rng.choice(done)))
         if rng.random() < 0.5:
             do(("start",))
+    if out["exc"] is None and not pending and again in (1, 3):
+        do(("start",))                          # ... nor is a finished one run a second time
     out["run"] = run
     out["stalled"] = bool(pending) and n >= max_calls
     return out
